@@ -258,7 +258,8 @@ func C12_K4L3() { c12(4, 3, "ab*?[]!-\\", false) }
 
 // C12_Class: bracket expressions with a character class and ranges.
 func C12_Class() {
-	pats := []string{"[[:alpha:]]", "[![:alpha:]]", "[[:alpha:]b-]", "[a-b]*", "*[!a-b]", "[]a]", "[a\\]]", "[\\!a]", "[a-]?"}
+	pats := []string{"[[:alpha:]]", "[![:alpha:]]", "[[:alpha:]b-]", "[a-b]*", "*[!a-b]", "[]a]", "[a\\]]", "[\\!a]", "[a-]?",
+		"[a\\-c]", "[!a\\-c]", "[+\\-.]", "[c\\-a]", "[\\-a]", "[a\\-]", "[\\^a]", "[a\\^]", "[^\\^]", "[\\[a]", "[a-c\\]]", "\\[a]", "[\\\\a]"}
 	pat := []rune(pats[nd.Choice(len(pats))])
 	subj := symSubject(2, true)
 	prefix := nd.Choice(2) == 1
@@ -303,3 +304,5 @@ func C12_Two() {
 }
 
 func C12_K5L2() { c12(5, 2, "[a*].", false) }
+
+func C12_K6L2() { c12(6, 2, "[a\\-c]", false) }
